@@ -113,8 +113,43 @@ def _verify_worker(args):
 def run_functions(jobs, procs):
     if not jobs:
         return []
-    if procs <= 1 or len(jobs) == 1:
-        return [_verify_worker(j) for j in jobs]
+    # every function in its own worker process; a worker that dies (solver watchdog, crash of the solver library)
+    # costs only its own function, which is reported as undecided
+    from concurrent.futures import ProcessPoolExecutor
+    from concurrent.futures.process import BrokenProcessPool
     ctx = mp.get_context('fork')
-    with ctx.Pool(min(procs, len(jobs))) as pool:
-        return pool.map(_verify_worker, jobs, chunksize=1)
+    results = {}
+    pending = list(enumerate(jobs))
+    rounds = 0
+    while pending and rounds < 4:
+        rounds += 1
+        with ProcessPoolExecutor(max_workers=max(1, min(procs, len(pending))), mp_context=ctx,
+                                 initializer=_worker_init) as ex:
+            futs = [(i, j, ex.submit(_verify_worker, j)) for i, j in pending]
+            still = []
+            for i, j, f in futs:
+                try:
+                    results[i] = f.result()
+                except BrokenProcessPool:
+                    still.append((i, j))
+                except Exception:
+                    results[i] = {'function': j[1], 'crash': traceback.format_exc(), 'obligations': [],
+                                  'undecided': 'engine crash', 'family': j[0]}
+        if len(still) == len(pending) or rounds == 3:
+            # no progress possible for these: one of them takes the pool down every time; run them one by one
+            for i, j in still:
+                with ProcessPoolExecutor(max_workers=1, mp_context=ctx, initializer=_worker_init) as ex1:
+                    try:
+                        results[i] = ex1.submit(_verify_worker, j).result()
+                    except BrokenProcessPool:
+                        results[i] = {'function': j[1], 'obligations': [], 'family': j[0], 'canary': None,
+                                      'undecided': 'worker process died (solver call overran its budget by more '
+                                                   'than a minute, or the solver library crashed)'}
+            still = []
+        pending = still
+    return [results[i] for i in range(len(jobs))]
+
+
+def _worker_init():
+    from pyvc import verify
+    verify._watchdog()
